@@ -313,8 +313,10 @@ fn c05(spec: &RunSpec) -> ! {
             if taken.contains(&s) && k % 4 == 0 {
                 ran().clear();
                 sim::count(E_HIST_CROSSCHECK, 1);
-                unsafe { libc::raise(s) };
-                if *ran() != want {
+                // (a real-time signal cannot be queued when the user's RLIMIT_SIGPENDING is used up
+                // by other processes: raise() then fails with EAGAIN and nothing was delivered)
+                let raised = unsafe { libc::raise(s) } == 0;
+                if raised && *ran() != want {
                     sim::harness_error(&format!("delivery model and real kernel disagree: after op {} a real raise({}) ran {:?}, the simulated delivery ran {:?}", k, s, ran(), want));
                 }
             }
